@@ -4,6 +4,7 @@
 (3) lets CBMC decide `value == largest count whose object fits in 64 bytes` over the property's whole domain (finite, complete)."""
 import os, sys, re, json, subprocess, tempfile, shutil, time
 ROOT = os.path.normpath(os.path.join(os.path.dirname(os.path.abspath(__file__)), '..'))
+OUT = os.environ.get('VERIF_OUT', ROOT)      # evidence/ and replays/ go here (seed sweeps redirect them)
 sys.path.insert(0, os.path.join(ROOT, 'emit'))
 import astload
 REPO = os.environ.get('VERIF_REPO', '/repo')
@@ -176,9 +177,9 @@ def main():
         code = 0
         for k, ce in known_printed:
             print('KNOWN-FINDING: property=C19 %s [%s] (counterexample %s)' % (k['what'], k['id'], ce))
-        os.makedirs(os.path.join(ROOT, 'replays'), exist_ok=True)
+        os.makedirs(os.path.join(OUT, 'replays'), exist_ok=True)
         for d, ce in vio:
-            path = os.path.join(ROOT, 'replays', 'C19-%s.json' % re.sub(r'\W+', '_', str(d))[:60])
+            path = os.path.join(OUT, 'replays', 'C19-%s.json' % re.sub(r'\W+', '_', str(d))[:60])
             native = None
             if isinstance(ce, dict) and ce:
                 native = native_replay(ce, wd)
@@ -199,8 +200,8 @@ def main():
                            'explanation': 'value == spec is decided by CBMC over the whole stated domain modulo the assumed ABI contract; static facts (inline_capacity(), N==0 object size, buffer alignment) are static_asserts compiled by both compilers'},
               'assumptions': ['Itanium C++ ABI object layout as written in abi_model.h (validated on a grid, not proved)', 'LP64'],
               'wall_s': round(time.time() - t0, 1), 'violations': len(vio)}
-        os.makedirs(os.path.join(ROOT, 'evidence'), exist_ok=True)
-        json.dump(ev, open(os.path.join(ROOT, 'evidence', 'C19.json'), 'w'), indent=1)
+        os.makedirs(os.path.join(OUT, 'evidence'), exist_ok=True)
+        json.dump(ev, open(os.path.join(OUT, 'evidence', 'C19.json'), 'w'), indent=1)
         print('C19 %s: %d obligations, %d discharged, %d violations, %d known findings, %d undecided, %.0fs' % (tier, ev['coverage']['obligations'], ev['coverage']['discharged'], len(vio), len(known_printed), len(und), time.time() - t0))
         return code
     finally:
